@@ -1,0 +1,27 @@
+//go:build verif
+
+package lnd
+
+import (
+	"context"
+
+	"github.com/elementsproject/peerswap/onchain"
+	"github.com/lightningnetwork/lnd/lnrpc"
+	"github.com/lightningnetwork/lnd/lnrpc/walletrpc"
+)
+
+// Verification hooks (build tag verif, add-only): construct a Client whose
+// wallet-facing parts (lnd RPC client, WalletKit client, BitcoinOnChain) are
+// injected, so that the real Create{Opening,Preimage,Csv,Coop}SpendingTransaction
+// adapters can be run against fake gRPC clients without a node.
+
+// VerifNewWalletClient returns a Client with only the wallet-facing parts set.
+func VerifNewWalletClient(lndClient lnrpc.LightningClient, walletClient walletrpc.WalletKitClient, chain *onchain.BitcoinOnChain) *Client {
+	return &Client{
+		lndClient:            lndClient,
+		walletClient:         walletClient,
+		bitcoinOnChain:       chain,
+		ctx:                  context.Background(),
+		invoiceSubscriptions: make(map[string]interface{}),
+	}
+}
